@@ -27,7 +27,8 @@ ALPHABET = "Aa:1 "
 BOUNDS = {
     "quick": {"build_len": [1, 2], "name_cap": 2, "key_cap": 3, "alphabet": ALPHABET, "probes": PROBES, "task_budget_s": 600,
               "extra_tasks": [[3, "getitem"], [3, "delete"]]},
-    "thorough": {"build_len": [1, 2, 3, 4], "name_cap": 3, "key_cap": 3, "alphabet": ALPHABET, "probes": PROBES, "task_budget_s": 3000},
+    "thorough": {"build_len": [1, 2, 3], "name_cap": 3, "key_cap": 3, "alphabet": ALPHABET, "probes": PROBES, "task_budget_s": 3000, "max_paths": 400000,
+                 "extra_tasks": [[4, "contains"], [4, "getitem"], [4, "getattr"], [4, "delete"], [4, "get"], [4, "get_add"], [4, "assign"]]},
 }
 ASSUMPTIONS = [
     "sections of HeaderItems built by up to the stated number of append/insert operations with symbolic names, positions and case-normalisation flag",
